@@ -308,6 +308,20 @@ def build_tree(name):
         right = A.Identifier('int2.tab2', alias=A.Identifier('t2')) if shape == 'join' else A.Identifier('mindsdb.pred', alias=A.Identifier('m'))
         kw = {'condition': A.BinaryOperation('=', args=[A.Identifier('t1.a'), A.Identifier('t2.a')])} if shape == 'join' else {}
         return A.Select(targets=[A.Star()], from_table=A.Join(left=t1, right=right, join_type='join', **kw), where=cond)
+    if name.startswith('wide_'):
+        # wide_<n>_<tag>_<plain|join|consts>: a statement with n distinct names (or constants) built by the caller (a BI tool
+        # that selects every column of a wide table): breadth instead of depth
+        _, n, tag, shape = name.split('_')
+        n = int(n)
+        t1 = A.Identifier('int.tab1', alias=A.Identifier('t1'))
+        if shape == 'consts':
+            return A.Select(targets=[A.Star()], from_table=t1,
+                            where=A.BinaryOperation('in', args=[A.Identifier('t1.a'), A.Tuple([A.Constant('k%s_%d' % (tag, i)) for i in range(n)])]))
+        targets = [A.Identifier('t1.w%s_%d' % (tag, i)) for i in range(n)]
+        if shape == 'plain':
+            return A.Select(targets=targets, from_table=t1)
+        return A.Select(targets=targets, from_table=A.Join(left=t1, right=A.Identifier('int2.tab2', alias=A.Identifier('t2')), join_type='join',
+                                                           condition=A.BinaryOperation('=', args=[A.Identifier('t1.a'), A.Identifier('t2.a')])))
     raise ValueError(name)
 
 
